@@ -27,9 +27,15 @@ BUDGET = {"quick": 12000, "thorough": 400000}
 @st.composite
 def _cases(draw):
     prof = dict(gen.PROFILES["i18n"], p_group_media=0.15, p_search=0.15, p_search_randomize=1, p_randomize=0.2, p_or_other=0.1, p_table_list=0.05, settings="some", p_group=0.2, p_repeat=0.15,
-                p_text_ref=0.15, p_plain_too=0.3, p_arg_default_language=0.3, p_choice_label_ref=0.1, p_extra_cols=0.2, p_prefixed_names=0.1, p_osm=0.05)
+                p_text_ref=0.15, p_plain_too=0.3, p_arg_default_language=0.3, p_choice_label_ref=0.1, p_extra_cols=0.2, p_prefixed_names=0.1, p_osm=0.05, p_choice_nolabel=0.08)
     g = gen.G(draw, prof)
     form = gen.build_form(draw, prof, g=g)
+    if g.p("_", 0.12):
+        # a language name spelled with a doubled / non-breaking space or a tab in one column and in the default_language setting
+        gen.respell_language(g, form)
+        dl = form.get("args", {}).get("default_language")
+        if dl and " " in dl and g.p("_", 0.5):
+            form["args"]["default_language"] = dl.replace(" ", g.pick(["  ", "\t"]), 1)
     if form.get("lists") and g.langs and g.p("_", 0.1):
         # a label-less select with the 'label' appearance (the header row of a hand-made table) that has media only
         ln = form["lists"][0]["name"]
@@ -95,7 +101,8 @@ def evaluate(case) -> Outcome:
         return out
     if v.primary is None or v.body is None:
         return out
-    check(out, form, v)
+    # the model reads language names in their cleaned spelling (doubled / non-breaking spaces and tabs in a name are one space)
+    check(out, common.clean_languages(form), v)
     return out
 
 
